@@ -113,3 +113,89 @@ Theorem C17_trailing_garbage : forall text ns s1 a st,
   parse text ns = Err "has an invalid token".
 Proof. exact parse_trailing_garbage. Qed.
 Print Assumptions C17_trailing_garbage.
+
+(* ------------------------------------------------------------------ *)
+(* WHOLE-STRING statements: the TEXT of a damaged expression is rejected by Compile.
+   [rejected_all re_ok ns ts]: Compile returns an error on EVERY admissible white-space layout of
+   the token list ts (followed by the end of the text).  The intact parts are arbitrary
+   round-trip expressions (any size); the damage classes are the ones of the property. *)
+From XP.Proofs Require Import ScanTokens RoundTripOps RoundTripPaths RoundTripWs EndToEndPaths EndToEndReject.
+From XP Require Import Dispatch.
+From XP.Generated Require Import DispatchTable.
+Open Scope list_scope.
+
+(* E1 op  — cut right after any of the 14 binary operators *)
+Theorem C17_text_cut_after_operator : forall re_ok ns op l,
+  xwf l -> level op <= xlvl l -> xdepth l < max_depth ->
+  rejected_all re_ok ns (xtoks l ++ [optok op]).
+Proof. exact C17_text_cut_after_operator_all. Qed.
+Print Assumptions C17_text_cut_after_operator.
+
+(* ( E   — the closing parenthesis is missing *)
+Theorem C17_text_missing_closing_paren : forall re_ok ns e,
+  xwf e -> S (xdepth e) < max_depth -> rejected_all re_ok ns (TP ILParens :: xtoks e).
+Proof. exact C17_text_missing_rparen. Qed.
+Print Assumptions C17_text_missing_closing_paren.
+
+(* P [ E   — the closing bracket is missing *)
+Theorem C17_text_missing_closing_bracket : forall re_ok ns p e,
+  path_syntax p -> xwf e -> S (xdepth e) < max_depth ->
+  rejected_all re_ok ns (xtoks p ++ TP ILBracket :: xtoks e).
+Proof. exact C17_text_missing_rbracket. Qed.
+Print Assumptions C17_text_missing_closing_bracket.
+
+(* E )  and  E ]  — an unbalanced closer *)
+Theorem C17_text_unbalanced_closer : forall re_ok ns e (rb : bool),
+  xwf e -> xdepth e < max_depth ->
+  rejected_all re_ok ns (xtoks e ++ [TP (if rb then IRBracket else IRParens)]).
+Proof.
+  intros re_ok ns e rb Hw Hd L HL Hm.
+  apply (C17_text_extra_closer re_ok ns e rb Hw Hd L HL).
+  rewrite Hm, <- app_assoc. reflexivity.
+Qed.
+Print Assumptions C17_text_unbalanced_closer.
+
+(* P /  and  P //  — cut after a slash (the bare "/" is a valid expression) *)
+Theorem C17_text_cut_after_slash_ : forall re_ok ns s r (dbl : bool),
+  rwf r -> rdepth r < max_depth ->
+  rejected_all re_ok ns (xtoks (XPath s r) ++ [slash_tok dbl]).
+Proof. exact C17_text_cut_after_slash. Qed.
+Print Assumptions C17_text_cut_after_slash_.
+
+(* P [ *)
+Theorem C17_text_cut_after_open_bracket : forall re_ok ns p,
+  path_syntax p -> rejected_all re_ok ns (xtoks p ++ [TP ILBracket]).
+Proof. exact C17_text_cut_after_lbracket. Qed.
+Print Assumptions C17_text_cut_after_open_bracket.
+
+(* f(   f(e1,..,ek,   f(e1,..,ek *)
+Theorem C17_text_cut_inside_call : forall re_ok ns fn,
+  node_type_name fn = false ->
+  rejected_all re_ok ns [TName fn; TP ILParens] /\
+  forall a, awf a -> S (adepth a) < max_depth ->
+    rejected_all re_ok ns (TName fn :: TP ILParens :: atoks a ++ [TP IComma]) /\
+    rejected_all re_ok ns (TName fn :: TP ILParens :: atoks a).
+Proof.
+  intros re_ok ns fn Hf. split; [exact (C17_text_cut_after_call_lparen re_ok ns fn Hf)|].
+  intros a Ha Hd. split.
+  - exact (C17_text_cut_after_comma re_ok ns fn a Hf Ha Hd).
+  - exact (C17_text_call_not_closed re_ok ns fn a Hf Ha Hd).
+Qed.
+Print Assumptions C17_text_cut_inside_call.
+
+(* a call the Go switch of build.go (as regenerated on this run) rejects by argument count, and a
+   name it does not list, are rejected as texts *)
+Theorem C17_text_rejected_call : forall re_ok ns r oa,
+  In r go_functions -> go_rejects r (List.length (call_args oa)) = true ->
+  xwf (call_px (fr_name r) oa) -> xok (call_px (fr_name r) oa) ->
+  xdepth (call_px (fr_name r) oa) < max_depth ->
+  exists msg, compile re_ok (print_min (call_px (fr_name r) oa)) ns = Err msg.
+Proof. exact C17_text_go_rejected_call. Qed.
+Print Assumptions C17_text_rejected_call.
+
+Theorem C17_text_unlisted_function : forall re_ok ns fn oa,
+  str_in fn (map fr_name go_functions) = false ->
+  xwf (call_px fn oa) -> xok (call_px fn oa) -> xdepth (call_px fn oa) < max_depth ->
+  exists msg, compile re_ok (print_min (call_px fn oa)) ns = Err msg.
+Proof. exact C17_text_go_unlisted_name. Qed.
+Print Assumptions C17_text_unlisted_function.
